@@ -5,12 +5,15 @@
    expression out of range is Panic, an exhausted loop / recursion fuel is Hang.
    [no_crash o] = o is a value or an error.  [bytes_ok b] = every element of b is below 256.
 
-   NOT proved here (checked by the corpus of the C18 driver only): everything that is a thin wrapper
-   over encoding/asn1, encoding/pem, math/big or crypto/... (certificate, CSR, CRL, PKCS#7 and PKCS#12
-   structure, SignDataToSignDigit) and the stdlib-derived TLS message parsers. *)
-From Coq Require Import List NArith Arith Bool Lia.
+   Section 5 models the DER reader of encoding/asn1 itself (Dec/Asn1Model.v) and proves it total for every
+   schema; it is instantiated end to end for SignDataToSignDigit and CipherUnmarshal.
+   NOT proved here (checked by the corpus of the C18 driver only): the other wrappers over encoding/asn1,
+   encoding/pem, math/big or crypto/... (certificate, CSR, CRL, PKCS#7 and PKCS#12 structure beyond the
+   reader core) and the stdlib-derived TLS message parsers. *)
+From Coq Require Import List NArith ZArith Arith Bool Lia.
 From GmsmVerif Require Import Gen.DecConsts Lib.Outcome Dec.Access Dec.AccessProofs Dec.DecSpec
-  Dec.BerModel Dec.BerProofs Dec.BerDer Dec.ByteModels Dec.ByteProofs.
+  Dec.BerModel Dec.BerProofs Dec.BerDer Dec.ByteModels Dec.ByteProofs
+  Dec.Asn1Model Dec.Asn1Proofs Dec.Asn1Inst Dec.Asn1InstProofs.
 Import ListNotations.
 Local Open Scope nat_scope.
 
@@ -210,4 +213,52 @@ Example C18_misc_examples :
   ecc_processClientKeyExchange_gate [1]%N = Err 1 /\
   readPublicKeyFromHex [48;52]%N = Err 2 /\ readPublicKeyFromHex [48]%N = Err 1 /\
   readPrivateKeyFromHex [48;97]%N = Ok 10%N.
+Proof. vm_compute. repeat split; reflexivity. Qed.
+
+(* ================= 5. encoding/asn1: the DER reader every wrapper goes through ================= *)
+(* Dec/Asn1Model.v follows parseTagAndLength / parseBase128Int / parseField / parseBigInt / parseBitString /
+   parseObjectIdentifier of Go 1.23 with checked accesses, for structs of big.Int, []byte, BitString, OID,
+   RawValue with the field parameters optional / explicit / tag:n / set.  For EVERY schema, field parameter
+   and byte string: a value or an error, never an out-of-range access, never a loop without end; at most
+   2 * (number of schema nodes) tag-and-length reads; the value has the shape of the Go type. *)
+Theorem C18_asn1_unmarshal_total :
+  forall k params b,
+    match Unmarshal k params b with
+    | Ok (v, rest, steps) => (steps <= 2 * N.of_nat (ksize k))%N /\ length rest <= length b /\
+                             (match v with VAbsent => p_optional params | _ => conforms k v end) = true
+    | Err _ => True
+    | Panic | Hang => False
+    end.
+Proof. exact Unmarshal_total. Qed.
+Print Assumptions C18_asn1_unmarshal_total.
+
+(* end to end: sm2.SignDataToSignDigit = Unmarshal into SEQUENCE { r, s INTEGER } ... *)
+Theorem C18_signDataToSignDigit_total : forall b, no_crash (signDataToSignDigit b).
+Proof. exact signDataToSignDigit_total. Qed.
+Print Assumptions C18_signDataToSignDigit_total.
+
+(* ... and sm2.CipherUnmarshal = Unmarshal into SEQUENCE { x, y INTEGER, hash, ct OCTET STRING } + the post-processing of section 3 *)
+Theorem C18_cipherUnmarshal_total : forall b, no_crash (cipherUnmarshal b).
+Proof. exact cipherUnmarshal_total. Qed.
+Print Assumptions C18_cipherUnmarshal_total.
+
+(* the cost in tag-and-length reads for the structures used: constant, whatever the input *)
+Theorem C18_asn1_cost :
+  forall b,
+    (forall v rest st, Unmarshal sigSchema noParams b = Ok (v, rest, st) -> (st <= 6)%N) /\
+    (forall v rest st, Unmarshal cipherSchema noParams b = Ok (v, rest, st) -> (st <= 10)%N) /\
+    (forall v rest st, Unmarshal certOuterSchema noParams b = Ok (v, rest, st) -> (st <= 12)%N).
+Proof. exact asn1_cost. Qed.
+Print Assumptions C18_asn1_cost.
+
+Example C18_asn1_examples :
+  signDataToSignDigit [48;6;2;1;5;2;1;7]%N = Ok (5%Z, 7%Z) /\
+  signDataToSignDigit [48;7;2;2;0;133;2;1;255;9;9]%N = Ok (133%Z, Zneg xH) /\
+  signDataToSignDigit [48;6;2;2;0;5;2;0]%N = Err 4 /\            (* INTEGER not minimal *)
+  signDataToSignDigit [48;129;6;2;1;5;2;1;7]%N = Err 3 /\        (* length not minimal *)
+  signDataToSignDigit [48;128;2;1;5;2;1;7;0;0]%N = Err 2 /\      (* indefinite length *)
+  signDataToSignDigit [48;6;2;1;5;2;1]%N = Err 1 /\              (* truncated *)
+  (do '(v, rest, st) <- Unmarshal certOuterSchema noParams [48;16; 48;2;5;0; 48;5;6;3;42;3;4; 3;3;0;1;2; 9]%N; Ok (v, rest, st))
+    = Ok (VStruct [48;16;48;2;5;0;48;5;6;3;42;3;4;3;3;0;1;2]%N
+            [VRaw 0 16 true [5;0]%N [48;2;5;0]%N; VStruct [] [VOID [1;2;3;4]%N; VAbsent]; VBits [1;2]%N 16], [9]%N, 5%N).
 Proof. vm_compute. repeat split; reflexivity. Qed.
